@@ -8,11 +8,11 @@ MAP = [
     (r"_execution/", ["C01", "C04", "C06", "C07", "C10", "C15", "C16", "C17"]),
     (r"_transformations/|_run\.py", ["C03", "C05", "C08", "C09", "C13", "C14", "C15", "C18", "C19", "C07"]),
     (r"_plan\.py|graph\.py|_builtins|_graph\.py", ["C02", "C04", "C13", "C19", "C01"]),
-    (r"stores/|_value_store|_testing", ["C11", "C12", "C08", "C18", "C14"]),
+    (r"stores/|_value_store|_testing", ["C11", "C12", "C08", "C18", "C14", "C05"]),
     (r"progress/", ["C15", "C20"]),
     (r"_util/traceback|_errors", ["C19", "C06"]),
     (r"_registry", ["C13", "C03", "C19"]),
-    (r"_util/__init__|_util/validation|_util/networkx|_util/retry", ["C01", "C04", "C07", "C10", "C06", "C20"]),
+    (r"_util/__init__|_util/validation|_util/networkx|_util/retry", ["C01", "C04", "C07", "C10", "C06", "C20", "C15", "C16", "C19"]),
 ]
 d = os.path.abspath(sys.argv[1])
 patch = os.path.join(d, "patch.diff")
